@@ -1,6 +1,8 @@
 package main
 
 import (
+	"fmt"
+	"os"
 	"strings"
 
 	"oss.terrastruct.com/d2/d2ast"
@@ -18,7 +20,7 @@ func c04BoardMoved(m *d2ast.Map) []string {
 	walk = func(mm *d2ast.Map, path string) {
 		seen := false
 		for _, nb := range mm.Nodes {
-			if nb.IsBoardNode() {
+			if c03IsBoard(nb) {
 				k := nb.MapKey
 				kind := k.Key.Path[0].Unbox().ScalarString()
 				if k.Value.Map != nil && len(k.Value.Map.Nodes) > 0 {
@@ -70,15 +72,12 @@ func c04KeywordCase(m *d2ast.Map) bool {
 
 // the C03 text defects that also change what the text means
 var c04FromC03 = map[string]string{
-	"C03-key-trailing-dash":             "C04-key-trailing-dash",
-	"C03-escaped-trailing-space":        "C04-escaped-trailing-space",
-	"C03-inline-block-comment":          "C04-inline-block-comment",
-	"C03-escape-after-substitution":     "C04-escape-after-substitution",
-	"C03-board-block-layout":            "C04-board-key-dropped",
-	"C03-block-string-multibyte-indent": "C04-block-string-multibyte-indent",
-	"C03-block-string-mixed-quote":      "C04-block-string-mixed-quote",
-	"C03-unquoted-leading-quote-char":   "C04-raw-text-not-reparsable",
-	"C03-raw-text-not-reparsable":       "C04-raw-text-not-reparsable",
+	"C03-key-trailing-dash":           "C04-key-trailing-dash",
+	"C03-escaped-trailing-space":      "C04-escaped-trailing-space",
+	"C03-escape-after-substitution":   "C04-escape-after-substitution",
+	"C03-block-string-mixed-quote":    "C04-block-string-mixed-quote",
+	"C03-unquoted-leading-quote-char": "C04-raw-text-not-reparsable",
+	"C03-raw-text-not-reparsable":     "C04-raw-text-not-reparsable",
 }
 
 // c04Dropped: (a) a key layers / scenarios / steps (any quoting) whose value is not a non-empty map is not
@@ -93,7 +92,7 @@ func c04Dropped(m *d2ast.Map) (boardKey, emptyMap bool) {
 			if k == nil {
 				continue
 			}
-			if nb.IsBoardNode() && (k.Value.Map == nil || len(k.Value.Map.Nodes) == 0) {
+			if c03IsBoard(nb) && (k.Value.Map == nil || len(k.Value.Map.Nodes) == 0) {
 				boardKey = true
 			}
 			c := ctx
@@ -120,30 +119,153 @@ func c04Dropped(m *d2ast.Map) (boardKey, emptyMap bool) {
 	return
 }
 
+// c04Rewrite: the smallest textual rewrite of the input that reproduces ONLY the recorded effects of the
+// findings C04-keyword-case (key segment lower-cased in place), C04-empty-map-dropped ("{}" removed) and
+// C04-board-key-dropped (the board key without boards removed).  If the formatter does nothing else that
+// matters, compile(Format(text)) is compile(c04Rewrite(text)).
+func c04Rewrite(text string, m *d2ast.Map) string {
+	type edit struct {
+		s, e int
+		repl string
+	}
+	var edits []edit
+	d2ast.Walk(m, func(n d2ast.Node) bool {
+		switch n := n.(type) {
+		case *d2ast.KeyPath:
+			for _, sb := range n.Path {
+				if us, isU := sb.Unbox().(*d2ast.UnquotedString); isU && us != nil && len(us.Value) == 1 && us.Value[0].StringRaw != nil {
+					raw := *us.Value[0].StringRaw
+					low := strings.ToLower(raw)
+					if _, res := d2ast.ReservedKeywords[low]; res && low != raw {
+						s, e := us.Range.Start.Byte, us.Range.End.Byte
+						if s >= 0 && e <= len(text) && s < e && text[s:e] == raw {
+							edits = append(edits, edit{s, e, low})
+						}
+					}
+				}
+			}
+		case *d2ast.Map:
+			for _, nb := range n.Nodes {
+				k := nb.MapKey
+				if k == nil {
+					continue
+				}
+				if c03IsBoard(nb) && (k.Value.Map == nil || len(k.Value.Map.Nodes) == 0) {
+					edits = append(edits, edit{k.Range.Start.Byte, k.Range.End.Byte, ""})
+					continue
+				}
+				if k.Value.Map != nil && len(k.Value.Map.Nodes) == 0 {
+					// cut the map and the white space before it; without a primary value also the colon
+					st, en := k.Value.Map.Range.Start.Byte, k.Value.Map.Range.End.Byte
+					if st < 0 || en > len(text) || st >= en || text[st] != '{' {
+						continue
+					}
+					for st > 0 && (text[st-1] == ' ' || text[st-1] == '\t') {
+						st--
+					}
+					if k.Primary.Unbox() == nil && st > 0 && text[st-1] == ':' {
+						st--
+						for st > 0 && (text[st-1] == ' ' || text[st-1] == '\t') {
+							st--
+						}
+					}
+					edits = append(edits, edit{st, en, ""})
+				}
+			}
+		}
+		return true
+	})
+	// apply from the end; skip edits that overlap an already applied one
+	for i := 1; i < len(edits); i++ {
+		for j := i; j > 0 && edits[j].s > edits[j-1].s; j-- {
+			edits[j], edits[j-1] = edits[j-1], edits[j]
+		}
+	}
+	out := text
+	limit := len(text) + 1
+	for _, ed := range edits {
+		if ed.s < 0 || ed.e > len(out) || ed.s > ed.e || ed.e > limit {
+			continue
+		}
+		out = out[:ed.s] + ed.repl + out[ed.e:]
+		limit = ed.s
+	}
+	return out
+}
+
+var c04ExactIDs = map[string]bool{"C04-keyword-case": true, "C04-empty-map-dropped": true, "C04-board-key-dropped": true, "C04-board-moved": true}
+
+// c04Signatures: the candidates (structural signatures), confirmed against the recorded misbehaviour:
+// when only findings with a known effect match, the formatted program must mean exactly what the minimally
+// rewritten input (c04Rewrite) means, except - when a scenarios/steps block is moved - inside the boards that
+// inherit from the map in which it is moved.  Any other change of meaning keeps no tag.
 func c04Signatures(text string, res c04Result) []string {
 	m, nerr, fail := c03Parse(text)
 	if fail != "" || nerr > 0 || m == nil {
 		return nil
 	}
-	var kf []string
+	kf, moved := c04Candidates(text, m, res)
+	if len(kf) == 0 || (res.ok2 && len(res.diff) == 0) {
+		return kf
+	}
+	for _, id := range kf {
+		if !c04ExactIDs[id] {
+			return kf // a finding whose effect is not predicted: accepted as it is (blind spot, see findings.json)
+		}
+	}
+	if len(moved) > 0 && c04HasGlob(m) {
+		return kf // globs are applied per board in declaration order: moving a block changes more than the blocks
+	}
+	rw := c04Rewrite(text, m)
+	g, cfg, err, cfail := c04Compile(rw)
+	if os.Getenv("C04_DEBUG") != "" {
+		fmt.Fprintf(os.Stderr, "REWRITE %q -> %q err=%v ok2=%v\n", text, rw, err, res.ok2)
+	}
+	if cfail != "" {
+		return nil
+	}
+	if err != nil || g == nil {
+		if !res.ok2 {
+			return kf
+		}
+		return nil
+	}
+	if !res.ok2 {
+		if len(moved) > 0 {
+			return kf // the moved block, with what it now inherits, no longer compiles
+		}
+		return nil
+	}
+	p := c04Project(g, cfg)
+	if p.clause[30].String() != res.proj2[30] {
+		return nil
+	}
+	for b, sProj := range p.boards {
+		if res.boards2[b] != sProj && !c04Under(b, moved) {
+			return nil
+		}
+	}
+	for b := range res.boards2 {
+		if _, ok := p.boards[b]; !ok && !c04Under(b, moved) {
+			return nil
+		}
+	}
+	return kf
+}
+
+func c04Under(board string, moved []string) bool {
+	for _, p := range moved {
+		if strings.HasPrefix(board, p+"/scenarios/") || strings.HasPrefix(board, p+"/steps/") {
+			return true
+		}
+	}
+	return false
+}
+
+func c04Candidates(text string, m *d2ast.Map, res c04Result) (kf []string, moved []string) {
 	if paths := c04BoardMoved(m); len(paths) > 0 {
-		// the difference must be confined to the scenarios / steps that inherit from those maps
-		// (or the moved block, with what it now inherits, no longer compiles)
-		confined := true
-		for _, b := range res.dboards {
-			ok := false
-			for _, p := range paths {
-				if strings.HasPrefix(b, p+"/scenarios/") || strings.HasPrefix(b, p+"/steps/") {
-					ok = true
-				}
-			}
-			if !ok {
-				confined = false
-			}
-		}
-		if confined {
-			kf = append(kf, "C04-board-moved")
-		}
+		moved = paths
+		kf = append(kf, "C04-board-moved")
 	}
 	if c04KeywordCase(m) {
 		kf = append(kf, "C04-keyword-case")
@@ -168,5 +290,16 @@ func c04Signatures(text string, res c04Result) []string {
 			}
 		}
 	}
-	return kf
+	return kf, moved
+}
+
+func c04HasGlob(m *d2ast.Map) bool {
+	found := false
+	d2ast.Walk(m, func(n d2ast.Node) bool {
+		if us, ok := n.(*d2ast.UnquotedString); ok && len(us.Pattern) > 0 {
+			found = true
+		}
+		return !found
+	})
+	return found
 }
